@@ -12,6 +12,7 @@
 //
 // The real code is the header /repo/src/ExactGeometricTests.hpp, unchanged.
 #include "ExactGeometricTests.hpp"
+#include "NewVoronoiGrid.hpp"
 #include "verif_common.hpp"
 
 #include <algorithm>
@@ -684,6 +685,104 @@ static Shape octahedron(double c, double r, const char *name) {
 }
 
 // ---------------------------------------------------------------------------
+// third anchored mechanism: "generator coordinates are rescaled into [1,2) before any predicate is
+// evaluated" (NewVoronoiGrid.cpp:124-190, NewVoronoiBox.hpp). Every coordinate the grid hands to the
+// predicates - rescaled generators, their six wall copies, the four corners of the enclosing
+// tetrahedron - must lie in [1,2), otherwise get_mantissa() decodes a different number.
+// Enumerated: box sides^3 x anchors^3 over small alphabets, generators at the extreme and central
+// positions of the box.
+// ---------------------------------------------------------------------------
+static bool rescale_case(Result &R, const Vec &anchor, const Vec &sides, uint64_t &npoints, bool verbose) {
+  const double f[3] = {1.e-9, 0.5, 1. - 1.e-9};
+  std::vector< Vec > gen;
+  for (int i = 0; i < 3; ++i)
+    for (int j = 0; j < 3; ++j)
+      for (int k = 0; k < 3; ++k)
+        gen.push_back(Vec(anchor.x() + f[i] * sides.x(), anchor.y() + f[j] * sides.y(), anchor.z() + f[k] * sides.z()));
+  const NewVoronoiGrid g(gen, Box<>(anchor, sides));
+  auto in_range = [](const Vec &p) {
+    return p.x() >= 1. && p.x() < 2. && p.y() >= 1. && p.y() < 2. && p.z() >= 1. && p.z() < 2.;
+  };
+  const std::string boxs = fmt("box anchor (%a,%a,%a) sides (%a,%a,%a) = anchor (%g,%g,%g) sides (%g,%g,%g)", anchor.x(),
+                               anchor.y(), anchor.z(), sides.x(), sides.y(), sides.z(), anchor.x(), anchor.y(),
+                               anchor.z(), sides.x(), sides.y(), sides.z());
+  const std::string rep = fmt("{\"pred\": \"rescale\", \"pts\": \"%a %a %a %a %a %a\"}", anchor.x(), anchor.y(),
+                              anchor.z(), sides.x(), sides.y(), sides.z());
+  bool ok = true;
+  const bool cubic = sides.x() == sides.y() && sides.y() == sides.z();
+  for (int k = 0; k < 4; ++k) {
+    const Vec p = g._real_rescaled_box.get_position(NEWVORONOICELL_BOX_CORNER0 + k, g._real_rescaled_positions[0]);
+    ++npoints;
+    if (verbose)
+      printf("  tetrahedron corner %d -> (%a, %a, %a)\n", k, p.x(), p.y(), p.z());
+    if (!in_range(p)) {
+      ok = false;
+      R.violation(fmt("C17:rescale:outside-[1,2):tetrahedron-corner:%s-box", cubic ? "cubic" : "non-cubic"),
+                  fmt("%s: corner %d of the enclosing tetrahedron is handed to the predicates as (%a,%a,%a) = "
+                      "(%.17g,%.17g,%.17g)",
+                      boxs.c_str(), k, p.x(), p.y(), p.z(), p.x(), p.y(), p.z()),
+                  rep);
+    }
+  }
+  for (size_t i = 0; i < gen.size(); ++i) {
+    ++npoints;
+    if (!in_range(g._real_rescaled_positions[i])) {
+      ok = false;
+      const Vec p = g._real_rescaled_positions[i];
+      R.violation("C17:rescale:outside-[1,2):generator",
+                  fmt("%s: generator (%.17g,%.17g,%.17g) is rescaled to (%a,%a,%a)", boxs.c_str(), gen[i].x(),
+                      gen[i].y(), gen[i].z(), p.x(), p.y(), p.z()),
+                  rep);
+    }
+    for (int w = 0; w < 6; ++w) {
+      const Vec p = g._real_rescaled_box.get_position(NEWVORONOICELL_BOX_LEFT + w, g._real_rescaled_positions[i]);
+      ++npoints;
+      if (!in_range(p)) {
+        ok = false;
+        R.violation("C17:rescale:outside-[1,2):wall-copy",
+                    fmt("%s: wall copy %d of generator (%.17g,%.17g,%.17g) is (%a,%a,%a)", boxs.c_str(), w, gen[i].x(),
+                        gen[i].y(), gen[i].z(), p.x(), p.y(), p.z()),
+                    rep);
+      }
+    }
+  }
+  return ok;
+}
+
+static void run_rescale(Result &R, bool thorough, uint64_t &nboxes, uint64_t &npoints, uint64_t &nbad) {
+  std::vector< double > S = {1., 2., 4., 100., 0.3, 7.};
+  std::vector< double > Av = {0., -2., 0.5};
+  if (thorough) {
+    S.push_back(1.e-3);
+    S.push_back(3.0856775814913673e16); // 1 pc in m
+    S.push_back(1. / 3.);
+    Av.push_back(10.);
+    Av.push_back(-1.e5);
+  }
+  for (double sx : S)
+    for (double sy : S)
+      for (double sz : S)
+        for (double ax : Av)
+          for (double ay : Av)
+            for (double az : Av) {
+              if (R.out_of_time()) {
+                R.hit_deadline("rescale enumeration");
+                return;
+              }
+              // anchors scale with the box so that positions stay resolvable
+              const Vec sides(sx, sy, sz);
+              const Vec anchor(ax * sx, ay * sy, az * sz);
+              ++nboxes;
+              if (!rescale_case(R, anchor, sides, npoints, false))
+                ++nbad;
+              else if (nboxes % 1000 == 7)
+                R.sample(fmt("{\"pred\": \"rescale\", \"anchor\": \"%g %g %g\", \"sides\": \"%g %g %g\", "
+                             "\"all_in_[1,2)\": true}",
+                             anchor.x(), anchor.y(), anchor.z(), sx, sy, sz));
+            }
+}
+
+// ---------------------------------------------------------------------------
 static int do_replay(const Args &A, Result &R) {
   const std::string txt = read_file(A.replay);
   const std::string pred = replay_field(txt, "pred");
@@ -700,6 +799,15 @@ static int do_replay(const Args &A, Result &R) {
       p[n++] = v;
       s = end;
     }
+  }
+  if (pred == "rescale" && n == 6) {
+    uint64_t np = 0;
+    printf("replay rescale: box anchor (%g,%g,%g) sides (%g,%g,%g)\n", p[0], p[1], p[2], p[3], p[4], p[5]);
+    const bool ok = rescale_case(R, Vec(p[0], p[1], p[2]), Vec(p[3], p[4], p[5]), np, true);
+    printf("  %s\n", ok ? "all coordinates in [1,2)" : "coordinates outside [1,2) handed to the predicates");
+    R.evaluations = np;
+    R.nontrivial = np;
+    return R.finish(A);
   }
   const bool orient = (pred == "orient3d");
   const int npts = orient ? 4 : 5;
@@ -745,6 +853,20 @@ int main(int argc, char **argv) {
     return do_replay(A, R);
 
   const bool th = A.thorough();
+  if (A.get("mode", "predicates") == "rescale") {
+    uint64_t nboxes = 0, npoints = 0, nbad = 0;
+    run_rescale(R, th, nboxes, npoints, nbad);
+    R.evaluations = npoints;
+    R.nontrivial = nboxes;
+    R.set("boxes", (double)nboxes);
+    R.set("boxes_with_a_coordinate_outside_[1,2)", (double)nbad);
+    R.set("coordinates_checked", (double)npoints);
+    R.rule = "every box of sides^3 x anchors^3 over the listed alphabets is given to the real NewVoronoiGrid "
+             "constructor with 27 generators at the extreme (1e-9 from the walls) and central positions; evaluations "
+             "= coordinates triples handed to the predicates (rescaled generators, 6 wall copies each, 4 tetrahedron "
+             "corners) tested for membership of [1,2)^3; non-trivial = boxes.";
+    return R.finish(A);
+  }
   const std::string only = A.get("only", ""); // orient | insphere | families (development aid)
   Counters Co, Ci, Cfo, Cfi;
   bool complete = true;
